@@ -21,8 +21,8 @@ from .coqterm import AstNode, Opaque, coq_pyval, coq_string, coq_float, coq_opti
 FNS = [(s, d) for s in ("Int", "Float", "String", "Boolean", "ID")
        for d in ("coerce_output", "coerce_input", "parse_literal")]
 GEN_NAMES = ["%s_%s" % (s.lower(), d) for s, d in FNS]
-PROPERTY_FILES = ["Properties/C10.v", "Proofs/ScalarRefine.v", "Proofs/ScalarLaws.v",
-                  "Proofs/PreludeFacts.v"]
+PROPERTY_FILES = ["Properties/C10.v", "Properties/C10Temporal.v", "Proofs/ScalarRefine.v", "Proofs/ScalarLaws.v",
+                  "Proofs/PreludeFacts.v", "Proofs/TemporalLaws.v"]
 
 
 def boundary_pool():
@@ -336,7 +336,7 @@ def evaluate(cases, idem, litvar, ftab, stab, with_model, seed, shard=320):
 def main(tier_, replay=None):
     rep = common.Report("C10")
     seed = common.seed()
-    b = common.build(["Properties/C10.vo", "Model/ScalarLawsB.vo"])
+    b = common.build(["Properties/C10.vo", "Properties/C10Temporal.vo", "Model/ScalarLawsB.vo"])
     gate = common.grep_gate()
     proofs_ok = b["ok"] and not gate
     if not b["ok"]:
@@ -344,6 +344,19 @@ def main(tier_, replay=None):
         common.build(["Model/ScalarLawsB.vo"])
     cases, idem, litvar, ftab, stab = collect(tier_, seed)
     ev = evaluate(cases, idem, litvar, ftab, stab, b["ok"], seed)
+    # Date / Time / DateTime: parameters extracted from the source (Gen/Temporal_gen.v) over Model/Temporal.v
+    from . import c10_temporal
+    t_scalars = asyncio.run(c10_temporal.get_scalars("verif_c10t_%d" % seed))
+    t_cases, t_fails, t_stats = c10_temporal.collect(t_scalars, tier_, seed)
+    t_mm = []
+    if b["ok"]:
+        t_files = c10_temporal.shard_files(t_cases, seed)
+        for (name, text, off), (ok, so, se) in zip(t_files, common.run_coq_many([(n_, t_) for n_, t_, _o in t_files])):
+            if not ok:
+                rep.violation({"property": "C10", "what": "temporal case file failed to evaluate", "stderr": se[-1500:]},
+                              no_input=True)
+                continue
+            t_mm += [off + i for i in (common.parse_Z_list(so, "model_mismatch") or [])]
     if ev["errors"]:
         rep.violation({"property": "C10", "what": "case file failed to evaluate",
                        "stderr": ev["errors"][0]}, no_input=True)
@@ -391,6 +404,16 @@ def main(tier_, replay=None):
             rep.violation({"property": "C10", "kind": "literal_eq_variable", "scalar": c["scalar"],
                            "literal": c["lit"], "variable": repr(c["var"]),
                            "literal_result": obs_json(c["ol"]), "variable_result": obs_json(c["oi"])})
+    for f in t_fails[:5]:
+        n_fail += 1
+        rep.violation(dict({"property": "C10", "kind": "law (Date/Time/DateTime)"}, **f))
+    if n_fail == 0 and t_mm and proofs_ok and not mm:
+        c = t_cases[t_mm[0]]
+        n_fail += 1
+        rep.violation({"property": "C10", "what": "correspondence broken: Model/Temporal.v instantiated with the parameters "
+                       "extracted from the source and the real scalar disagree, no law fails on the explored pool",
+                       "scalar": c["scalar"], "direction": c["dir"], "input": c["desc"],
+                       "implementation": c10_temporal.obs_json(c["obs"]), "n_mismatches": len(t_mm)}, no_input=True)
     if n_fail == 0:
         if not proofs_ok:
             rep.violation({"property": "C10", "what": "proof obligation no longer checks",
@@ -407,6 +430,9 @@ def main(tier_, replay=None):
                           no_input=True)
     nob, names = common.count_obligations(PROPERTY_FILES)
     assum = common.assumptions("Properties/C10.v") if b["ok"] else {"closed": 0, "axioms": ["build failed"]}
+    if b["ok"]:
+        a2 = common.assumptions("Properties/C10Temporal.v")
+        assum = {"closed": assum["closed"] + a2["closed"], "axioms": (assum["axioms"] or []) + (a2["axioms"] or [])}
     distinct = len({(c["fn"], c["desc"]) for c in cases if c["obs"][0] == "ok"})
     samples = [{"fn": "%s.%s" % FNS[c["fn"]], "input": c["desc"], "observed": obs_json(c["obs"])}
                for c in cases[:: max(1, len(cases) // 12)]][:12]
@@ -417,11 +443,12 @@ def main(tier_, replay=None):
             "Print Assumptions: %d theorems 'Closed under the global context'; axioms: %s"
             % (assum["closed"], assum["axioms"] or "none")],
         "theorems": [n for n in names if n.startswith("C10_")],
-        "evaluations": len(cases) + len(idem) + len(litvar),
+        "evaluations": len(cases) + len(idem) + len(litvar) + len(t_cases),
+        "temporal": dict(t_stats, cases=len(t_cases), model_mismatches=len(t_mm), law_failures=len(t_fails)),
         "distinct_nontrivial": distinct,
         "rule": "boundary pool + seeded random values through the 15 real scalar methods; a case is "
                 "non-trivial when the real scalar accepted the value (distinct (method,input) pairs)",
-        "traces_validated_against_impl": len(cases),
+        "traces_validated_against_impl": len(cases) + len(t_cases),
         "model_mismatches": len(mm or []), "law_failures": len(lf) + len(idf) + len(lvf),
         "input_distribution": {"cases": len(cases), "idempotence_pairs": len(idem),
                                "literal_variable_pairs": len(litvar),
@@ -430,5 +457,7 @@ def main(tier_, replay=None):
         "samples": samples,
     }, rep.wall(), violations=len(rep.violations),
         assumptions_=["float(str) and str(value) are oracles (recorded from the interpreter)",
-                      "Date/Time/DateTime are not modelled (strptime/isoformat are library oracles)"])
+                      "Date/Time/DateTime: datetime.strptime / isoformat / str.split are modelled by hand "
+                      "(Model/Temporal.v: CPython's _strptime regex alternatives, constructor range checks) and tied "
+                      "by correspondence; ASCII only (non-ASCII decimal digits, tz-aware values are outside the model)"])
     return rep.finish()
